@@ -64,6 +64,14 @@ def parseOp (h : Heap) (s : String) : Option Op :=
   | ["ss", t, k, v] => do
       let t ← resolve h t
       pure (.setString t (match k with | "c" => .pre | _ => .str) (natList "." v))
+  | ["se", t, s, v] => do
+      -- `.string = <a string object of the forest>`: the new string takes the CLASS of the argument (read from the heap) and is new
+      let t ← resolve h t
+      let s ← resolve h s
+      match h.kind s with
+      | .str => pure (.setString t .str (natList "." v))
+      | .pre => pure (.setString t .pre (natList "." v))
+      | _ => none
   | _ => none
 
 def errName : Err → String
